@@ -89,6 +89,77 @@ macro_rules! battery {
     (@pop DoublePriorityQueue, $q:ident) => { if $q.len() % 2 == 0 { $q.pop_min() } else { $q.pop_max() } };
 }
 
+/// C17 on degenerate types: the reservation post-conditions, and a request that
+/// cannot be satisfied (usize::MAX more elements: every entry costs at least
+/// its hash and two table slots, whatever the item and priority types are)
+macro_rules! capbattery {
+    ($Q:ident, $I:ty, $P:ty, $mk:expr, $log:expr) => {{
+        let mk: fn(usize) -> ($I, $P) = $mk;
+        let log: &mut Vec<String> = $log;
+        (move || -> Result<(), String> {
+        log.push(format!("{}<{}, {}>", stringify!($Q), stringify!($I), stringify!($P)));
+        for fill in [0usize, 1, 3] {
+            let mut q: $Q<$I, $P> = $Q::new();
+            for k in 0..fill {
+                let (i, p) = mk(k);
+                q.push(i, p);
+            }
+            let before: Vec<($I, $P)> = q.clone().into_vec().into_iter().map(|i| { let p = q.get_priority(&i).unwrap().clone(); (i, p) }).collect();
+            for n in [1usize, 5, 100] {
+                log.push(format!("{fill} pushes, reserve({n})"));
+                q.reserve(n);
+                if q.capacity() < q.len() + n {
+                    return Err(format!("after reserve({n}): capacity() = {} < len() + {n} = {}", q.capacity(), q.len() + n));
+                }
+                let mut r: $Q<$I, $P> = q.clone();
+                r.shrink_to_fit();
+                log.push(format!("{fill} pushes, reserve_exact({n}) after shrink_to_fit"));
+                if r.capacity() < r.len() {
+                    return Err(format!("after shrink_to_fit: capacity() = {} < len() = {}", r.capacity(), r.len()));
+                }
+                r.reserve_exact(n);
+                if r.capacity() < r.len() + n {
+                    return Err(format!("after reserve_exact({n}): capacity() = {} < len() + {n}", r.capacity()));
+                }
+                let mut t: $Q<$I, $P> = $Q::new();
+                for k in 0..fill {
+                    let (i, p) = mk(k);
+                    t.push(i, p);
+                }
+                log.push(format!("{fill} pushes, try_reserve({n}) / try_reserve_exact({n})"));
+                if t.try_reserve(n).is_ok() && t.capacity() < t.len() + n {
+                    return Err(format!("try_reserve({n}) succeeded but capacity() = {} < len() + {n}", t.capacity()));
+                }
+                t.shrink_to_fit();
+                if t.try_reserve_exact(n).is_ok() && t.capacity() < t.len() + n {
+                    return Err(format!("try_reserve_exact({n}) succeeded but capacity() = {} < len() + {n}", t.capacity()));
+                }
+            }
+            log.push(format!("{fill} pushes, try_reserve(usize::MAX) / try_reserve_exact(usize::MAX)"));
+            if q.try_reserve(usize::MAX).is_ok() || q.try_reserve_exact(usize::MAX).is_ok() {
+                return Err("a reservation of usize::MAX more elements reported success".into());
+            }
+            let after: Vec<($I, $P)> = q.clone().into_vec().into_iter().map(|i| { let p = q.get_priority(&i).unwrap().clone(); (i, p) }).collect();
+            if before != after || q.len() != before.len() {
+                return Err("capacity operations changed the contents".into());
+            }
+        }
+        Ok(())
+        })()
+    }};
+}
+
+fn caps(log: &mut Vec<String>) -> Result<(), String> {
+    capbattery!(PriorityQueue, (), (), |_| ((), ()), log)?;
+    capbattery!(DoublePriorityQueue, (), (), |_| ((), ()), log)?;
+    capbattery!(PriorityQueue, u8, (), |k| (k as u8, ()), log)?;
+    capbattery!(DoublePriorityQueue, (), u8, |k| ((), k as u8), log)?;
+    capbattery!(PriorityQueue, u64, i64, |k| (k as u64, k as i64), log)?;
+    capbattery!(DoublePriorityQueue, u64, i64, |k| (k as u64, k as i64), log)?;
+    capbattery!(PriorityQueue, [u64; 32], u8, |k| ([k as u64; 32], k as u8), log)?;
+    Ok(())
+}
+
 fn all(log: &mut Vec<String>) -> Result<(), String> {
     battery!(PriorityQueue, (), (), |_| ((), ()), log)?;
     battery!(DoublePriorityQueue, (), (), |_| ((), ()), log)?;
@@ -101,10 +172,11 @@ fn all(log: &mut Vec<String>) -> Result<(), String> {
     Ok(())
 }
 
-/// `pqharness zst`: prints `ok` or the failing step
-pub fn main() -> i32 {
+/// `pqharness zst [cap]`: prints `ok` or the failing step
+pub fn main(args: &[String]) -> i32 {
     let mut log = vec![];
-    let r = std::panic::catch_unwind(std::panic::AssertUnwindSafe(|| all(&mut log)));
+    let cap = args.first().map_or(false, |a| a == "cap");
+    let r = std::panic::catch_unwind(std::panic::AssertUnwindSafe(|| if cap { caps(&mut log) } else { all(&mut log) }));
     let err = match r {
         Ok(Ok(())) => {
             println!("ok");
